@@ -81,6 +81,7 @@ type simHistOpts struct {
 
 // simHistStats describes what a generated history actually exercised.
 type simHistStats struct {
+	ResubmittedFailed int
 	RateLimited int
 	PoolSize    int
 	FatRounds int
@@ -157,6 +158,7 @@ type simHist struct {
 	dedupErr error
 	toolRuns int
 
+	lastFailed    []*simEntry // entries whose submitters got an error in the previous round
 	shapeOverride map[int]int
 	curSubmitting *simEntry
 	httpNext int
@@ -445,6 +447,13 @@ func (h *simHist) run(t *rapid.T) error {
 			}
 			h.st.FatRounds++
 		}
+		// a client whose submission failed in the previous round typically submits it again right away
+		if len(h.lastFailed) > 0 && rapid.IntRange(0, 2).Draw(t, "resubmitFailed") > 0 {
+			k := rapid.IntRange(1, min(3, len(h.lastFailed))).Draw(t, "resubmitFailedN")
+			entries = append(append([]*simEntry(nil), h.lastFailed[:k]...), entries...)
+			h.st.ResubmittedFailed += k
+		}
+		h.lastFailed = nil
 		// some duplicates of what was submitted before (same or earlier rounds)
 		if h.nextID > 0 && rapid.IntRange(0, 3).Draw(t, "dups") == 0 {
 			for k := rapid.IntRange(1, 3).Draw(t, "ndups"); k > 0; k-- {
@@ -518,6 +527,10 @@ func (h *simHist) run(t *rapid.T) error {
 		}
 		h.curSubmitting = nil
 		s.w.yield = nil
+		// answers that do not wait for sequencing (deduplication cache hits, refusals) reach the submitter now
+		if !h.in.p.dead {
+			s.poll(h.in, nil)
+		}
 		if innerRes != nil {
 			h.st.Rounds++
 			h.st.Acks += len(innerRes.Acks)
@@ -628,6 +641,13 @@ func (h *simHist) run(t *rapid.T) error {
 			}
 		}
 		h.st.Rounds++
+		if !res.Crashed && res.Err == nil {
+			for _, e := range res.FailedEntries {
+				if e.ID >= 0 && e.ID < 2_000_000 {
+					h.lastFailed = append(h.lastFailed, e)
+				}
+			}
+		}
 		h.st.FaultsFired += len(res.Fired)
 		h.st.Acks += len(res.Acks)
 		if res.PoolSize == 0 {
